@@ -28,6 +28,7 @@ NAMES = {
     "non-utf8": ["bad\xff", "caf\xe9.txt"],
     "spaces": ["my file", "tab\tname"],
     "tilde": ["x~", "~y~", "n.~z~"],
+    "backup-named-sibling": ["f", "f.~1~"],      # the second name is recomputed per case: the number the backup of the first would get
     "long": ["L" * 250, "M" * 251, "N" * 252, "O" * 254, "P" * 255],
 }
 BSETS = {"none": [], "one": [1], "gap": [1, 3, 7], "large": [1, 2 ** 62], "many": list(range(1, 13)), "u64max": [5, 2 ** 64 - 1], "zero": [0]}
@@ -54,6 +55,10 @@ def gen_cases(tier, seed):
         names = list(NAMES[ncls]) if ncls in ("prefix-pair",) else [r.choice(NAMES[ncls])]
         dircopy = ncls == "non-utf8" or r.random() < 0.5
         bset = r.choice(sorted(BSETS))
+        if ncls == "backup-named-sibling":
+            # two sources of one run: a file, and a file named like the backup the first one's old version is about to receive
+            bset = r.choice(["none", "one", "gap", "many"])
+            names = ["f", "f.~%d~" % (max(BSETS[bset] + [0]) + r.choice([1, 1, 1, 2]))]
         pre = [{"p": "dst", "k": "d"}]
         base = "dst/src" if dircopy else "dst"
         if dircopy:
@@ -65,9 +70,9 @@ def gen_cases(tier, seed):
             if r.random() < 0.5:
                 pre.append({"p": base + "/a.~2~", "k": "f", "size": 12, "seed": r.randrange(1, 1 << 30), "segs": None})
         for nm in names:
-            if r.random() < 0.7:
+            if r.random() < 0.7 or (ncls == "backup-named-sibling" and nm == names[0]):
                 pre.append({"p": base + "/" + nm, "k": "f", "size": r.choice([0, 5, 3000]), "seed": r.randrange(1, 1 << 30), "segs": None})
-            nums = BSETS[bset] if (nm == names[0] or r.random() < 0.5) else []
+            nums = BSETS[bset] if (nm == names[0] or (r.random() < 0.5 and ncls != "backup-named-sibling")) else []
             for k in nums:
                 if len(b(nm)) + len(".~%d~" % k) > 255:
                     continue    # such a backup name cannot exist (NAME_MAX)
